@@ -185,6 +185,26 @@ func (e *Engine) inline(st *State, caller *Frame, site *ssa.Call, fn *ssa.Functi
 		e.Check(st, caller, site.Pos(), "R-depth", "call of "+fn.Name(), false, "inlining depth cap reached: unbounded recursion through this call chain?")
 		return []Result{{st: st, ret: e.freshOfType(st, site.Type(), "depthcap")}}
 	}
+	// recursion: a function may sit on the call chain a few times (the benign cycles die
+	// out in refined contexts); more re-entries mean unbounded state-to-state recursion
+	occ := 0
+	var chain []string
+	for f := caller; f != nil; f = f.caller {
+		if f.fn == fn {
+			occ++
+		}
+		if len(chain) < 6 {
+			chain = append(chain, f.fn.Name())
+		}
+	}
+	if occ >= 2 {
+		e.Check(st, caller, site.Pos(), "R-depth", "recursive call of "+fn.Name(), false, "unbounded recursion: "+fn.Name()+" is re-entered while already active twice (chain … "+strings.Join(chain, " ← ")+")")
+		return []Result{{st: st, ret: e.freshOfType(st, site.Type(), "recursion")}}
+	}
+	if e.Inlined > e.Cfg.MaxInline && e.Cfg.MaxInline > 0 {
+		e.Check(st, caller, site.Pos(), "R-depth", "inlining budget at call of "+fn.Name(), false, "the analysis budget (number of inlined calls) is exhausted: call structure too deep or recursive")
+		return []Result{{st: st, ret: e.freshOfType(st, site.Type(), "budget")}}
+	}
 	e.Inlined++
 	if e.Cfg.Trace {
 		fmt.Fprintf(os.Stderr, "%*sinline %s (depth %d) lp=%d\n", caller.depth*2, "", fn.Name(), caller.depth+1, e.LP.Calls)
